@@ -14,6 +14,10 @@ claim("C03","exploration","runtime monitor: self-consistency oracle (re-encode =
  "Millions of hostile byte strings per run (uniform, grammar-aware evil encodings, byte mutations, every truncation offset, nesting to 10^5) are decoded by both decoder kinds in child processes; panics, fatal errors and hangs are caught by process monitoring, canonicity by re-encoding and Skip.",
  "inputs <= ~1 MiB, nesting <= 10^5; hang = watchdog + reproduction alone", "DESIGN.md §5 C03")
 
+claim("C12","exploration","runtime monitor: differential oracle (reference envelope codec) + API-agreement oracle over generated requests under scripted read segmentation",
+ "Every generated (name,type,seqid,body) is written by all envelope encoders and compared with spec bytes, read back by all envelope decoders, sent as a request in the three framings through DecodeRequest and ReadRequest under six chunking classes (seekable or not), wrong-type rejection is checked, and each response is re-decoded by the reference codec; the internal envelope client/multiplex/server loop is judged on the bytes crossing the transport; mutated byte strings check agreement of the two request APIs.",
+ "trusts refcodec's envelope grammar; message types 0..127, names 1..65536 bytes", "DESIGN.md §5 C12")
+
 NOT_IMPL = "check not implemented yet in this round (statement about the machinery, not the technique)"
 
 def main():
